@@ -5,6 +5,7 @@ import (
 	"fmt"
 	"github.com/Trendyol/go-dcp/api"
 	"github.com/Trendyol/go-dcp/models"
+	"github.com/couchbase/gocbcore/v10"
 	"math/big"
 	"sort"
 	"strings"
@@ -27,6 +28,9 @@ type MetricParams struct {
 	// SkipUntil: dcp.listener.skipUntil is configured and some events are older: they are not accepted and
 	// must not be counted
 	SkipUntil bool `json:"skip_until"`
+	// Faults adds two operations: a rebalance during which the close-stream request of one vBucket fails and no
+	// stream end follows for it; a scrape whose high-seqno request is answered with an error
+	Faults bool `json:"faults"`
 }
 
 type ScrapeRaceParams struct {
@@ -106,6 +110,7 @@ func init() {
 			}
 			return []Instance{
 				{Scenario: "c16_hist", Params: mustJSON(MetricParams{Depth: d}), Bound: 0, Shards: 8},
+				{Scenario: "c16_hist", Params: mustJSON(MetricParams{Depth: d - 1, Faults: true}), Bound: 0, Shards: 8, Note: "alphabet extended by a rebalance with a failing close-stream request (no stream end follows) and a scrape whose high-seqno request fails"},
 				{Scenario: "c16_hist", Params: mustJSON(MetricParams{Depth: d - 1, SkipUntil: true}), Bound: 0, Shards: 4, Note: "skipUntil configured: events older than it are not accepted and not counted"},
 				{Scenario: "c12_duringopen", Params: mustJSON(struct{}{}), Bound: 1, Shards: 4, Note: "the active-stream figure when a stream ends while Open() still waits for another vBucket"},
 				{Scenario: "c16_race", Params: mustJSON(ScrapeRaceParams{Against: "close"}), Bound: b, Shards: sh},
@@ -146,6 +151,7 @@ func metricHistMain(p MetricParams) {
 	if p.SkipUntil {
 		kinds = []string{"M", "Mbefore", "Ebefore", "Mat", "D"}
 	}
+	seqnoFault := false
 	check := func() {
 		vrt.Quiesce()
 		c.WaitIdle()
@@ -181,6 +187,9 @@ func metricHistMain(p MetricParams) {
 			}
 		}
 		got, err := scrape(e)
+		if err != nil && seqnoFault {
+			return // the scrape reports the failure instead of figures: fine
+		}
 		if err != nil {
 			vrt.Failf("after %v: scrape failed: %v", hist, err)
 			return
@@ -267,9 +276,51 @@ func metricHistMain(p MetricParams) {
 	}
 	check()
 	for step := 0; step < p.Depth; step++ {
-		op := vrt.Choose(9, true, "op")
+		nops := 9
+		if p.Faults {
+			nops = 11
+		}
+		op := vrt.Choose(nops, true, "op")
 		restore := func() {}
 		switch op {
+		case 9: // a rebalance (same numbering) during which the close-stream request of one vBucket fails; no
+			// stream end is ever reported for it (the connection had a problem, the server has dropped the stream)
+			fvb := ref.rng[0]
+			armed := true
+			c.Fault = func(r *gocbcore.SimRequest) gocbcore.SimAnswer {
+				if armed && r.Kind == "closestream" && r.Vb == fvb {
+					armed = false
+					c.KillStream(fvb)
+					return gocbcore.SimAnswer{Kind: "err", Err: gocbcore.ErrTemporaryFailure}
+				}
+				return gocbcore.SimAnswer{}
+			}
+			publishInfo(e, ref.member[0], ref.member[1])
+			vrt.Sleep(1)
+			e.Stream.Rebalance()
+			vrt.Sleep(1e9)
+			vrt.Quiesce()
+			c.Fault = nil
+			hist = append(hist, fmt.Sprintf("rebalance(close-stream of vb%d fails, no end follows)", fvb))
+			ref.rebal++
+			ref.kinds = map[uint16]map[string]int{}
+			e.Cons.Events = nil
+		case 10: // the high-seqno request of the next scrape is answered with an error (after progress on the server)
+			vb := ref.rng[0]
+			s := c.Vb[vb].High + 1
+			next[vb] = s + 1
+			c.Append(vb, marker(s, s), symbolPacket("M", s))
+			c.WaitIdle()
+			vrt.Quiesce()
+			c.Fault = func(r *gocbcore.SimRequest) gocbcore.SimAnswer {
+				if r.Kind == "vbseqnos" {
+					return gocbcore.SimAnswer{Kind: "err", Err: gocbcore.ErrTemporaryFailure}
+				}
+				return gocbcore.SimAnswer{}
+			}
+			seqnoFault = true
+			restore = func() { c.Fault = nil; seqnoFault = false }
+			hist = append(hist, fmt.Sprintf("deliver(vb%d,M);seqno-request-fails", vb))
 		case 0, 1: // deliver on the first / last vBucket of the range
 			vb := ref.rng[0]
 			if op == 1 {
